@@ -522,6 +522,18 @@ package nbs
 //@ extern github.com/dolthub/dolt/go/store/hash.MaybeParse as verif_x_hash_MaybeParse
 //@   modifies nothing
 
+// the panic helpers of go/store/d panic exactly when their argument says so: under `nopanic` their preconditions are
+// obligations (this is how hash.Parse, which panics on a malformed hash, is kept out of the parsers of on-disk data)
+//@ extern github.com/dolthub/dolt/go/store/d.PanicIfError as verif_x_d_PanicIfError
+//@   requires err == nil
+//@   modifies nothing
+//@ extern github.com/dolthub/dolt/go/store/d.PanicIfTrue as verif_x_d_PanicIfTrue
+//@   requires !b
+//@   modifies nothing
+//@ extern github.com/dolthub/dolt/go/store/d.PanicIfFalse as verif_x_d_PanicIfFalse
+//@   requires b
+//@   modifies nothing
+
 // ---- table writer (C06): the index written by writeIndex is the layout the reader parses
 
 //@ func verif_order_pos
@@ -824,8 +836,11 @@ package nbs
 //@   at call bootstrapJournal: assert arg2:bool == !verif_ghost.jReadOnly
 //@   also_modifies verif_ghost.jReadOnly
 
+// whichever way it returns a manifest (read-only opener or writer), the contents carry the root the journal holds
 //@ func trueUpBackingManifest
-//@   property C41
+//@   property C41 C02
+//@   ensures  result1 == nil && len(result0.nbfVers) > 0 ==> result0.root == root
+//@   ensures  result1 == nil && result0.root != root ==> len(result0.specs) == 0 && len(result0.nbfVers) == 0
 //@   requires !verif_ghost.mTempSynced && !verif_ghost.mValidated && !verif_ghost.mRenamed && !verif_ghost.mDirSynced
 //@   at call Update: assert !verif_ghost.jReadOnly
 //@   also_modifies verif_ghost.jReadOnly
@@ -1238,3 +1253,10 @@ package nbs
 //@   assume_requires NewBlobRange
 //@   at call Get: assert arg3:blobstore.BlobRange == blobstore.NewBlobRange(0, dataLen)
 //@   at call Put: assert arg3:int64 == dataLen
+
+// commit: the shortcut that acknowledges a commit without touching the manifest is taken only when there is nothing
+// to persist — no memtable, no table file still waiting to be added to the manifest — and the root does not move
+//@ func (*NomsBlockStore).commit
+//@   property C02
+//@   assume_requires updateManifest
+//@   at call rebase: assert nbs.memtable == nil && len(nbs.tables.novel) == 0 && current == last
